@@ -350,10 +350,18 @@ func (E *Engine) header(uses []string) string {
 	return b.String()
 }
 
-func (E *Engine) specText(uses []string) string {
+func (E *Engine) specText(uses []string, hide []string) string {
 	var b strings.Builder
+	hidden := map[string]bool{}
+	for _, h := range hide {
+		hidden[h] = true
+	}
 	for _, m := range E.Spec.closure(uses) {
-		fmt.Fprintf(&b, "; ---- module %s\n%s", m.Name, m.Text)
+		if hidden[m.Name] {
+			fmt.Fprintf(&b, "; ---- module %s (interface only)\n%s", m.Name, m.Iface)
+		} else {
+			fmt.Fprintf(&b, "; ---- module %s\n%s", m.Name, m.Text)
+		}
 	}
 	return b.String()
 }
@@ -389,7 +397,11 @@ func (E *Engine) verifyFunc(key string) *FuncResult {
 	}
 	uses = append(uses, E.usesOfCallees(fn)...)
 	head := E.header(uses)
-	spec := E.specText(uses)
+	var hide []string
+	if ct != nil {
+		hide = ct.Hide
+	}
+	spec := E.specText(uses, hide)
 	lits := E.U.litDecls()
 	fr.Paths = len(x.paths)
 	fr.PathInfo = x.paths
@@ -622,8 +634,14 @@ type solverSpec struct {
 }
 
 var solvers = []solverSpec{
-	{"z3-4.8.12", func(ms int) []string { return []string{"z3", "-smt2", fmt.Sprintf("-t:%d", ms)} }},
-	{"z3-5.1.0", func(ms int) []string { return []string{"z3-new", "-smt2", fmt.Sprintf("-t:%d", ms)} }},
+	// E-matching only (no model-based quantifier instantiation): the VCs are in the Boogie/Dafny style,
+	// every needed instance is reachable through the stated triggers; MBQI only burns time on them
+	{"z3-4.8.12", func(ms int) []string {
+		return []string{"z3", "-smt2", fmt.Sprintf("-t:%d", ms), "smt.mbqi=false", "auto_config=false", "smt.case_split=3"}
+	}},
+	{"z3-5.1.0", func(ms int) []string {
+		return []string{"z3-new", "-smt2", fmt.Sprintf("-t:%d", ms), "smt.mbqi=false", "auto_config=false", "smt.case_split=3"}
+	}},
 	{"cvc5-1.0", func(ms int) []string {
 		return []string{"cvc5", "--lang=smt2", "--incremental", fmt.Sprintf("--tlimit-per=%d", ms)}
 	}},
